@@ -354,4 +354,160 @@ theorem validChar_facts (c : Char) (h : isValidTagChar c = true) : isBlankChar c
   · intro hc; subst hc; exact absurd h (by decide)
 
 
+
+/-! ## `os.Expand` / `expandEnvWithCmd` on rendered templates -/
+
+
+/-- a link-directive template, seen as what its author meant: literal text and references to variables -/
+inductive Piece where
+  | lit (text : List Char)
+  | var (name : List Char)          -- written `${name}`
+
+def Piece.render : Piece → List Char
+  | .lit t => t
+  | .var n => '$' :: '{' :: (n ++ ['}'])
+
+def Piece.denote (env : List Char → List Char) : Piece → List Char
+  | .lit t => t
+  | .var n => env n
+
+def renderAll (ps : List Piece) : List Char := (ps.map Piece.render).flatten
+def denoteAll (env : List Char → List Char) (ps : List Piece) : List Char := (ps.map (Piece.denote env)).flatten
+
+def Piece.WF : Piece → Prop
+  | .lit t => '$' ∉ t
+  | .var n => n ≠ [] ∧ '}' ∉ n ∧ '$' ∉ n
+
+theorem idxOf?_append_close (n rest : List Char) (h : '}' ∉ n) :
+    (n ++ '}' :: rest).idxOf? '}' = some n.length := by
+  induction n with
+  | nil => simp [List.idxOf?, List.findIdx?_cons]
+  | cons c cs ih =>
+    have hc : c ≠ '}' := by intro e; apply h; simp [e]
+    have hcs : '}' ∉ cs := by intro e; apply h; simp [e]
+    have := ih hcs
+    simp only [List.idxOf?, List.cons_append, List.findIdx?_cons] at this ⊢
+    simp [hc, this]
+
+theorem shellName_braced (n rest : List Char) (hne : n ≠ []) (h : '}' ∉ n) :
+    shellName ('{' :: (n ++ '}' :: rest)) = (n, n.length + 2) := by
+  have hidx := idxOf?_append_close n rest h
+  have hlen : n.length ≠ 0 := by cases n <;> simp_all
+  have htake : (n ++ '}' :: rest).take n.length = n := by simp
+  unfold shellName
+  split
+  · simp_all
+  · rename_i rest' heq
+    injection heq with _ heq
+    subst heq
+    split
+    · rename_i c tl heq2
+      split
+      · -- special single char: n = [c]
+        cases n with
+        | nil => exact absurd rfl hne
+        | cons d ds =>
+          cases ds with
+          | nil => simp at heq2; simp [heq2.1]
+          | cons e es =>
+            simp at heq2
+            exfalso; apply h; simp [heq2.2.1]
+      · simp [hidx, hlen, htake]
+    · simp [hidx, hlen, htake]
+  · rename_i c tl hno heq
+    injection heq with e1 _
+    exact absurd e1.symm hno
+
+
+theorem osExpand_lit (env : List Char → List Char) (t rest : List Char) (h : '$' ∉ t) (fuel : Nat)
+    (hf : t.length ≤ fuel) :
+    osExpand env (fuel + k) (t ++ rest) = t ++ osExpand env (fuel - t.length + k) rest := by
+  induction t generalizing fuel with
+  | nil => simp
+  | cons c cs ih =>
+    have hc : c ≠ '$' := by intro e; apply h; simp [e]
+    have hcs : '$' ∉ cs := by intro e; apply h; simp [e]
+    obtain ⟨f, rfl⟩ : ∃ f, fuel = f + 1 := ⟨fuel - 1, by simp at hf; omega⟩
+    have : f + 1 + k = (f + k) + 1 := by omega
+    rw [this]
+    simp only [List.cons_append, osExpand, hc, decide_false, Bool.false_and, Bool.false_eq_true, if_false]
+    rw [ih hcs f (by simp at hf; omega)]
+    simp
+
+
+theorem osExpand_nil (env : List Char → List Char) (fuel : Nat) : osExpand env fuel [] = [] := by
+  cases fuel <;> simp [osExpand]
+
+theorem osExpand_var (env : List Char → List Char) (n rest : List Char) (hne : n ≠ []) (h : '}' ∉ n) (fuel : Nat) :
+    osExpand env (fuel + 1) ('$' :: '{' :: (n ++ '}' :: rest)) = env n ++ osExpand env fuel rest := by
+  have hs := shellName_braced n rest hne h
+  have hdrop : ('{' :: (n ++ '}' :: rest)).drop (n.length + 2) = rest := by
+    simp [List.drop_append]
+  simp only [osExpand, decide_true, List.isEmpty_cons, Bool.not_false, Bool.and_self, if_true, hs]
+  have : n.isEmpty = false := by cases n <;> simp_all
+  simp [this, hdrop]
+
+theorem renderAll_cons (p : Piece) (ps : List Piece) : renderAll (p :: ps) = p.render ++ renderAll ps := by
+  simp [renderAll]
+
+theorem denoteAll_cons (env) (p : Piece) (ps : List Piece) : denoteAll env (p :: ps) = p.denote env ++ denoteAll env ps := by
+  simp [denoteAll]
+
+/-- no `$(` anywhere in the text -/
+def noSub : List Char → Bool
+  | [] => true
+  | c :: cs => !(c = '$' && cs.head? = some '(') && noSub cs
+
+theorem replaceSubcmds_noSub (cmdOut) (s : List Char) (h : noSub s = true) (fuel : Nat) :
+    replaceSubcmds cmdOut fuel s = some (s, false) := by
+  induction s generalizing fuel with
+  | nil => cases fuel <;> simp [replaceSubcmds]
+  | cons c cs ih =>
+    cases fuel with
+    | zero => simp [replaceSubcmds]
+    | succ f =>
+      simp only [noSub, Bool.and_eq_true, Bool.not_eq_true'] at h
+      have hcs := ih h.2 f
+      unfold replaceSubcmds
+      simp only [hcs, Option.map_some]
+      split
+      · rename_i hc
+        split
+        · simp [hc] at h
+        · rfl
+      · rfl
+
+theorem noSub_append_lit (t r : List Char) (ht : '$' ∉ t) (hr : noSub r = true) : noSub (t ++ r) = true := by
+  induction t with
+  | nil => simpa
+  | cons c cs ih =>
+    have hc : c ≠ '$' := by intro e; apply ht; simp [e]
+    have hcs : '$' ∉ cs := by intro e; apply ht; simp [e]
+    simp [noSub, hc, ih hcs]
+
+theorem noSub_render (ps : List Piece) (h : ∀ p ∈ ps, p.WF) : noSub (renderAll ps) = true := by
+  induction ps with
+  | nil => simp [renderAll, noSub]
+  | cons p ps ih =>
+    have hp := h p (List.mem_cons_self ..)
+    have hps := ih (fun q hq => h q (List.mem_cons_of_mem _ hq))
+    rw [renderAll_cons]
+    cases p with
+    | lit t => exact noSub_append_lit t _ hp hps
+    | var n =>
+      have e : (Piece.var n).render ++ renderAll ps = '$' :: '{' :: (n ++ '}' :: renderAll ps) := by simp [Piece.render]
+      rw [e]
+      have h2 : noSub ('}' :: renderAll ps) = true := by simp [noSub, hps]
+      have := noSub_append_lit n _ hp.2.2 h2
+      simp [noSub, this]
+
+theorem splitParen_close (inner rest : List Char) (h : ')' ∉ inner) :
+    splitParen (inner ++ ')' :: rest) = some (inner, rest) := by
+  induction inner with
+  | nil => simp [splitParen]
+  | cons c cs ih =>
+    have hc : c ≠ ')' := by intro e; apply h; simp [e]
+    have hcs : ')' ∉ cs := by intro e; apply h; simp [e]
+    simp [splitParen, hc, ih hcs]
+
 end LlgoVerif.Shell
